@@ -55,7 +55,10 @@ AllOps == UNION {{Code(t)[i] : i \in 1..Len(Code(t))} : t \in Thr}
 Atoms == {i.o : i \in {j \in AllOps : j.op \in {"ld", "st"}}}
 Mtxs == {i.o : i \in {j \in AllOps : j.op \in {"lock", "unlock", "trylock", "tunlock"}}}
 Rws == {i.o : i \in {j \in AllOps : j.op \in {"read", "write", "tryread", "trywrite", "unlockr", "unlockw", "tunlockr", "tunlockw"}}}
-Ntfs == {i.o : i \in {j \in AllOps : j.op \in {"ntf", "join"}}}         \* the Notify of a JoinHandle: notified once, by the ending thread
+Ntfs == {i.o : i \in {j \in AllOps : j.op \in {"ntf", "join"}}}
+\* Condvar::wait(cv, m) is three instructions here: "cvwait" cv (scheduling point on the condvar; enqueue + release m),
+\* "cvblock" (rt::block: the thread blocks, a second call of schedule), "lock" m (re-acquisition: an ordinary lock)
+Cvs == {i.o : i \in {j \in AllOps : j.op \in {"cvwait", "notify1", "notifyall"}}}         \* the Notify of a JoinHandle: notified once, by the ending thread
 Chans == {i.o : i \in {j \in AllOps : j.op \in {"send", "recv", "tryrecv", "droprx"}}}
 Arcs == {i.o : i \in {j \in AllOps : j.op \in {"aclone", "adrop", "acount"}}}
 \* access slots of channels and Arcs: <<object, class, thread>> (thread 0: one slot for all threads)
@@ -94,7 +97,8 @@ Ex0 == [pc |-> [t \in Thr |-> 1],
         val |-> [o \in Atoms |-> 0],
         holder |-> [m \in Mtxs |-> 0],
         rw |-> [l \in Rws |-> [w |-> 0, r |-> {}]],         \* RwLock: writer, set of readers
-        la |-> [o \in Atoms \cup Mtxs \cup Ntfs \cup Rws |-> NoAcc],  \* last_access
+        cvq |-> [c \in Cvs |-> <<>>],                       \* Condvar::waiters (FIFO)
+        la |-> [o \in Atoms \cup Mtxs \cup Ntfs \cup Rws \cup Cvs |-> NoAcc],  \* last_access
         ls |-> [o \in Atoms |-> NoAcc],                      \* last_non_load_access
         ll |-> [o \in Atoms |-> [t \in Thr |-> NoAcc]],      \* last_load_accesses
         acc |-> [k \in SlotKeys |-> NoAcc],                 \* channel / Arc access slots
@@ -167,6 +171,8 @@ Arrive(e0, a) ==
          [] ins.op = "join"  -> [e EXCEPT !.op[a] = ins, !.st[a] = IF ~e.ntfd[ins.o] THEN "blocked" ELSE @]
          [] ins.op = "droprx" -> [e EXCEPT !.op[a] = [op |-> "drain", o |-> ins.o]]       \* non-empty (RunToBranch)
          [] ins.op = "park"  -> [e EXCEPT !.op[a] = NoOp, !.st[a] = "blocked", !.parked[a] = TRUE, !.pc[a] = @ + 1]
+         \* rt::block inside Condvar::wait - unless a notification came between the release and this point
+         [] ins.op = "cvblock" -> [e EXCEPT !.op[a] = NoOp, !.st[a] = "blocked", !.pc[a] = @ + 1]
          [] OTHER            -> [e EXCEPT !.op[a] = ins]
 
 (* ------------------------------------------------- object access tracking *)
@@ -268,6 +274,17 @@ Perform(e, t) ==
                                        !.st = [u \in Thr |-> IF u # t /\ e.op[u].o = ins.o /\ e.st[u] \in {"blocked", "yield"}
                                                              THEN "runnable" ELSE e.st[u]]]
     [] ins.op = "join"    -> [e EXCEPT !.pc[t] = @ + 1, !.ntfd[ins.o] = FALSE]
+    \* Condvar::wait after its scheduling point: enqueue, release the mutex (the one re-locked two instructions later)
+    [] ins.op = "cvwait"  -> LET m == Code(t)[e.pc[t] + 2].o IN
+                             [Release([e EXCEPT !.cvq[ins.o] = Append(@, t)], t, m) EXCEPT !.pc[t] = @ + 1]
+    \* notify_one: Thread::wake of the first waiter (blocked / yield -> runnable); notify_all: of all of them
+    [] ins.op = "notify1" -> IF e.cvq[ins.o] = <<>> THEN [e EXCEPT !.pc[t] = @ + 1]
+                             ELSE LET w == Head(e.cvq[ins.o]) IN
+                                  [e EXCEPT !.cvq[ins.o] = Tail(@), !.pc[t] = @ + 1,
+                                            !.st[w] = IF @ \in {"blocked", "yield"} THEN "runnable" ELSE @]
+    [] ins.op = "notifyall" -> [e EXCEPT !.cvq[ins.o] = <<>>, !.pc[t] = @ + 1,
+                                         !.st = [u \in Thr |-> IF (\E k \in 1..Len(e.cvq[ins.o]) : e.cvq[ins.o][k] = u)
+                                                                   /\ e.st[u] \in {"blocked", "yield"} THEN "runnable" ELSE e.st[u]]]
     \* RwLock::post_acquire_read_lock: pending writers are blocked; post_acquire_write_lock: everybody pending on the lock
     [] ins.op \in {"read", "tryread"} ->
          IF e.rw[ins.o].w # 0 THEN [e EXCEPT !.regs[t] = Append(@, 0), !.pc[t] = @ + 1]          \* only try_read gets here
@@ -331,6 +348,11 @@ ExecRef(c, t) ==
     [] i.op = "aclone"  -> [s1 EXCEPT !.cnt[i.o] = @ + 1]
     [] i.op = "adrop"   -> [s1 EXCEPT !.cnt[i.o] = @ - 1]
     [] i.op = "acount"  -> [s1 EXCEPT !.regs[t] = Append(@, c.cnt[i.o])]
+    \* wait = atomically enqueue and release; it goes on (to the re-lock) once a notification has dequeued it.
+    \* notify_one wakes the first waiter: loom's policy, one of those std allows
+    [] i.op = "cvwait"  -> [s1 EXCEPT !.cvq[i.o] = Append(@, t), !.holder[Code(t)[c.pc[t] + 2].o] = 0]
+    [] i.op = "notify1" -> IF c.cvq[i.o] = <<>> THEN s1 ELSE [s1 EXCEPT !.cvq[i.o] = Tail(@)]
+    [] i.op = "notifyall" -> [s1 EXCEPT !.cvq[i.o] = <<>>]
     [] i.op = "ntf"     -> [s1 EXCEPT !.ntfd[i.o] = TRUE]
     [] i.op = "join"    -> [s1 EXCEPT !.ntfd[i.o] = FALSE]
     [] i.op = "park"    -> [s1 EXCEPT !.tok[t] = FALSE]
@@ -363,6 +385,7 @@ RefFrom(s) ==
                                   LET i == Code(t)[c.pc[t]] IN
                                   /\ i.op = "lock" => s.holder[i.o] = 0
                                   /\ i.op = "join" => s.ntfd[i.o]
+                                  /\ i.op = "cvblock" => ~(\E cv \in Cvs : \E k \in 1..Len(s.cvq[cv]) : s.cvq[cv][k] = t)
                                   /\ i.op = "read" => s.rw[i.o].w = 0
                                   /\ i.op = "write" => (s.rw[i.o].w = 0 /\ s.rw[i.o].r = {})
                                   /\ i.op = "recv" => s.chq[i.o] # <<>>
@@ -377,7 +400,7 @@ RefFrom(s) ==
      ELSE IF En = {} THEN {[end |-> "deadlock", regs |-> <<>>]}
      ELSE UNION {RefFrom(StepOf(t)) : t \in Pick}
 RefOutcomes == RefFrom([pc |-> Ex0.pc, val |-> Ex0.val, holder |-> Ex0.holder, rw |-> Ex0.rw, regs |-> Ex0.regs,
-                        chq |-> Ex0.chq, closed |-> Ex0.closed, cnt |-> Ex0.cnt, tok |-> Ex0.tok, ntfd |-> Ex0.ntfd,
+                        chq |-> Ex0.chq, closed |-> Ex0.closed, cnt |-> Ex0.cnt, tok |-> Ex0.tok, ntfd |-> Ex0.ntfd, cvq |-> Ex0.cvq,
                         last |-> 1, frozen |-> FALSE, skipped |-> FALSE])
 NOps == LET RECURSIVE Sum(_) Sum(t) == IF t > N THEN 0 ELSE Len(Code(t)) + Sum(t + 1) IN Sum(1)
 
